@@ -82,8 +82,8 @@ MODELS = {
                "conns": [{"src": "Sa", "dst": "Sb", "sa": "p", "da": "i", "async": True}],
                "until": 3}, {"next_offs": (1, 2), "fut_offs": (0,), "agents": [("Sb", "Sa", "i2")], "cause_hist": False}),
     # malformed replies
-    "faults": ({"sims": [_tb("Sa"), _hy("Sb")],
-                "conns": [_c("Sa", "Sb", "p", "i"), _c("Sb", "Sa", "e", "ti", shift=1)],
+    "faults": ({"sims": [_tb("Sa"), _hy("Sb"), _eb("Sc")],
+                "conns": [_c("Sa", "Sb", "p", "i"), _c("Sb", "Sc", "e", "ti", shift=1)],
                 "until": 2}, {"next_offs": (0, 1), "fut_offs": (0,), "faults": True, "cause_hist": False}),
     # event and measurement into one entity from two sources, sparse events
     "two_sources": ({"sims": [_tb("Sa"), _eb("Sb", (), True), _hy("Sc")],
@@ -184,6 +184,8 @@ def model_part(prop, tier, seed):
                     c["internal"] = True
                     cases.append(c)
                 pairs = explore.run_cases(cases)
+                if any(r["outcome"].get("phase") == "build" for _, r in pairs):
+                    raise RuntimeError(f"model scenario {res['model']} cannot be built on the real World: {pairs[0][1]['outcome']}")
                 entry.update({"graph_edges": total, "distinct_external_schedules": len(exts), "replayed": len(pairs)})
                 cov["graph_edges"] += total
                 cov["replayed"] += len(pairs)
